@@ -154,8 +154,11 @@ def _check_mlog(ctx, rep, model_ok):
         impls.append(",".join(f"{e['timestamp-ms']}/{e['metadata-file'][len('metadata/f'):]}" for e in new.metadata_log) or "-")
         reqs.append(f"meta.stamp {parsed if parsed is not None else '-'} {','.join(f'{a}/{b}' for a, b in old) if old else '-'} {bt} {f}")
         # oracle: bound
-        if parsed is not None and parsed >= 1 and len(old) <= parsed and len(new.metadata_log) > parsed:
-            rep.violate("C15:metadata-log-exceeds-bound", f"bound {parsed}, {len(new.metadata_log)} entries", {"kind": "mlog", "req": reqs[-1]})
+        appended = not (old and old[-1][1] == f)
+        if parsed is not None and parsed >= 1 and (len(old) <= parsed or appended) and len(new.metadata_log) > parsed:
+            # (mlog_trimmed: a commit that appends an entry trims to the bound whatever the length before, e.g. after the bound was lowered)
+            rep.violate("C15:metadata-log-exceeds-bound", f"bound {parsed}, {len(old)} entries before, {len(new.metadata_log)} after the commit",
+                        {"kind": "mlog", "req": reqs[-1]})
     model = driver.ask(reqs) if model_ok else [None] * len(reqs)
     for rq, im, m in zip(reqs, impls, model):
         rep.evaluations += 1
